@@ -59,6 +59,7 @@ template <class A> static Verdict norm_once(const std::string &text, const MUri 
   rc = useMm ? A::NormalizeSyntaxExMm(&u, mask, m) : (mask == 63 ? A::NormalizeSyntaxEx(&u, (unsigned)-1) : A::NormalizeSyntaxEx(&u, mask));
   bool bit = mm.failed > 0;
   mm.reset_plan();
+  VF_REQUIRE(mm.bad_free == 0, "%s: mask %u: during normalisation the manager was handed a block it never returned: %s", A::name(), mask, mm.bad_free_what.c_str());
   if (bit && rc != 0) {
     VF_REQUIRE(rc == URI_ERROR_MALLOC, "%s: allocation %d failed but normalisation rc=%d", A::name(), fault, rc);
     if (failed) *failed = true;
